@@ -65,7 +65,9 @@ theorem chunks_length_mul {α : Type} (n k : Nat) (hn : 0 < n) (l : List α) (h 
     rw [chunks]; simp
   | succ k ih =>
     have hne : l ≠ [] := by
-      intro h0; subst h0; simp at h; omega
+      intro h0; subst h0
+      have h1 : n * (k + 1) = 0 := by simpa using h.symm
+      rcases Nat.mul_eq_zero.mp h1 with h2 | h2 <;> omega
     rw [chunks]
     have hc : ¬ (n = 0 ∨ l = []) := by
       intro hh; rcases hh with hh | hh
@@ -87,5 +89,56 @@ theorem fiveBitChecksum_ok (m : Bits) (hm : m.length = 72) :
 theorem cs5_lt (m : Bits) : cs5 m < 31 := by
   unfold cs5 fiveBitChecksumRaw
   exact Nat.mod_lt _ (by decide)
+
+/-! ### the CRC-8 register stays below 256, and `int2ba` / `ba2int` are inverse on it -/
+
+theorem crcMask_eq : crcMask = 255 := by decide
+
+theorem crcBit_lt (reg : Nat) (b : Bool) : crcBit reg b < 256 := by
+  unfold crcBit
+  simp only [crcMask_eq]
+  split <;> split <;> exact Nat.lt_succ_of_le Nat.and_le_right
+
+theorem crcBitwise_lt (reg : Nat) (bits : Bits) (h : reg < 256) : crcBitwise reg bits < 256 := by
+  unfold crcBitwise
+  induction bits generalizing reg with
+  | nil => simpa using h
+  | cons b bs ih => simpa using ih _ (crcBit_lt reg b)
+
+theorem crcChunk_lt (reg : Nat) (chunk : Bits) (h : reg < 256) : crcChunk reg chunk < 256 := by
+  unfold crcChunk
+  split
+  · apply Nat.xor_lt_two_pow (n := 8)
+    · exact crcBitwise_lt 0 _ (by decide)
+    · rw [crcMask_eq]; exact Nat.lt_succ_of_le Nat.and_le_right
+  · exact crcBitwise_lt reg chunk h
+
+theorem crc8_lt (data : Bits) : crc8 data < 256 := by
+  unfold crc8
+  have h0 : crc8Init &&& crcMask < 256 := by decide
+  have : ∀ (l : List Bits) (r : Nat), r < 256 → l.foldl crcChunk r < 256 := by
+    intro l
+    induction l with
+    | nil => intro r hr; simpa using hr
+    | cons c cs ih => intro r hr; simpa using ih _ (crcChunk_lt r c hr)
+  exact Nat.xor_lt_two_pow (n := 8) (this _ _ h0) (by decide)
+
+theorem foldl_natToBits (w v acc : Nat) :
+    (natToBits w v).foldl (fun acc b => 2 * acc + b.toNat) acc = acc * 2 ^ w + v % 2 ^ w := by
+  induction w generalizing acc with
+  | zero => simp [natToBits, Nat.mod_one]
+  | succ w ih =>
+    simp only [natToBits, List.foldl_cons, ih]
+    have hb : (v / 2 ^ w % 2 == 1).toNat = v / 2 ^ w % 2 := by
+      rcases Nat.mod_two_eq_zero_or_one (v / 2 ^ w) with h | h <;> simp [h]
+    rw [hb, Nat.mod_pow_succ, Nat.pow_succ, Nat.add_mul, Nat.mul_assoc 2 acc, ← Nat.mul_assoc acc]
+    generalize acc * 2 ^ w = q
+    generalize v % 2 ^ w = r
+    rcases Nat.mod_two_eq_zero_or_one (v / 2 ^ w) with h | h <;> rw [h] <;> omega
+
+/-- `ba2int(int2ba(v, length=w)) = v` for `v < 2^w` -/
+theorem bitsToNat_natToBits (w v : Nat) (h : v < 2 ^ w) : bitsToNat (natToBits w v) = v := by
+  unfold bitsToNat
+  rw [foldl_natToBits, Nat.zero_mul, Nat.zero_add, Nat.mod_eq_of_lt h]
 
 end Dmr.Vbptc
